@@ -513,6 +513,11 @@ func (r *Run) exec(s SymStep) StepRec {
 				r.k.secret(kv[1], "password")
 			}
 		}
+		for _, kv := range append(append([][2]string{}, q.Form...), q.Query...) {
+			if kv[0] == "cnf" || kv[0] == "token" {
+				r.k.submitted(kv[1])
+			}
+		}
 		tab0 := r.totpTable(code)
 		rec.Oracle.Totp = tab0
 		rec.Action = &Action{Kind: "req", Req: &q}
